@@ -107,6 +107,9 @@ type FakeConn struct {
 	WritesAfterClose int
 	udpTarget string
 	clk    vsched.Clock
+	// FailWrites: the next n Write calls fail with an I/O error and write nothing (fault injection).
+	FailWrites   int
+	FailedWrites int
 }
 
 func (c *FakeConn) avail() int {
@@ -157,6 +160,11 @@ func (c *FakeConn) Write(b []byte) (int, error) {
 	if c.closed {
 		c.WritesAfterClose++
 		return 0, &net.OpError{Op: "write", Net: c.network, Err: net.ErrClosed}
+	}
+	if c.FailWrites > 0 {
+		c.FailWrites--
+		c.FailedWrites++
+		return 0, &net.OpError{Op: "write", Net: c.network, Err: errors.New("injected write failure")}
 	}
 	data := append([]byte{}, b...)
 	c.Writes = append(c.Writes, Segment{Data: data, Thread: vsched.CurID()})
